@@ -311,6 +311,36 @@ def r8_datagram_destination(ck, cx):
     ck.floor('R8', n, 3, 'datagram front-ends')
 
 
+def r8_one_datagram_per_framer_call(ck, cx, rule='R8'):
+    """datagram front-ends: what is handed to one processIncomingPacket call is the payload of exactly one receive event
+    (so that the reply address belongs to every request decoded from it)"""
+    from ..frontends import recv_paths, TRANSPORT_RECEIVERS
+    n = 0
+    for fe in FRONTENDS:
+        if fe[5] != 'datagram':
+            continue
+        cls, f, rps = recv_paths(cx, fe)
+        for rp in rps:
+            if rp.pip is None:
+                continue
+            n += 1
+            idx = [i for i, ev in enumerate(rp.path.ev) if ev.kind == 'call' and ev.node is rp.pip_node]
+            upto = idx[0] if idx else len(rp.path.ev)
+            # receive events of this iteration: transport reads and queue gets since the serving loop was entered (one iteration is enumerated)
+            start = min([i for i, ev in enumerate(rp.path.ev[:upto]) if ev.kind == 'loop' and ev.a == 'enter' and ev.frame.fid == 0] or [0])
+            recvs = []
+            for ev in rp.path.ev[start:upto]:
+                if ev.kind == 'call' and isinstance(ev.node.func, ast.Attribute):
+                    a, r = ev.node.func.attr, U(ev.node.func.value)
+                    if (a in ('recv', 'recvfrom', 'read') and r in TRANSPORT_RECEIVERS) or (a in ('get', 'get_nowait') and 'queue' in r):
+                        recvs.append(ev)
+            ck.ob(rule, f.qn, 'one receive event per framer call on a datagram front-end', len(recvs) <= 1,
+                  detail='datagrams-coalesced %d' % len(recvs), loc=cx.floc(f, recvs[1].node) if len(recvs) > 1 else cx.floc(f),
+                  message='%s feeds the payload of %d receive events to one framer call: requests of different peers are answered to one address'
+                          % (fe[0], len(recvs)))
+    ck.floor(rule, n, 4, 'datagram framer-call paths')
+
+
 def run(ck, tier):
     cx = Ctx()
     ck.guard(r1_r2, ck, cx)
@@ -320,6 +350,14 @@ def run(ck, tier):
     ck.guard(r6_signature, ck, cx)
     ck.guard(r7_synchronous, ck, cx)
     ck.guard(r8_datagram_destination, ck, cx)
+    ck.guard(r8_one_datagram_per_framer_call, ck, cx)
+    ck.rule('R9', 'every complete frame for a hosted unit reaches the callback: framer state carried between calls stays coherent (shared with C06 R6/R7)')
+    from .c06 import r6_header_cache_coherence, r7_add_appends
+    from ..framermodel import framer_paths
+    for kind in ('tcp', 'rtu', 'ascii', 'binary'):
+        kcls, kf, kfps = framer_paths(cx, kind)
+        ck.guard(r6_header_cache_coherence, ck, cx, kind, kcls, kf, kfps, 'R9')
+        ck.guard(r7_add_appends, ck, cx, kind, kcls, 'R9')
     ck.assume('request.execute may raise any Exception; context lookup may raise NoSuchSlaveException; other statements of execute() are treated as non-raising')
     ck.assume('byte-exact output streams over generated request histories are not decided')
     return cx.idx
